@@ -98,6 +98,8 @@ def rand_connected(rng, kit, nboxes, width, tree=False):
         if len(scan) - span + ncod > 7:
             ncod = min(ncod, 1)
         box = kit.box_with_dom(rng, scan[off:off + span], cod=kit.rand_ty(rng, ncod))
+        if rng.random() < .08:
+            box = box.bubble()       # a box like any other for the rewriting
         d = d >> kit.id(scan[:off]) @ box @ kit.id(scan[off + span:])
         scan = scan[:off] @ box.cod @ scan[off + span:]
         produced[off:off + span] = [True] * ncod
@@ -255,8 +257,52 @@ def normal_form(ctx, d, left, connected, class_size=None):
         return None, True
 
 
+def fan(kit, n):
+    """ n states listed right-to-left above one box joining them: about
+    n (n - 1) / 2 interchanges away from its normal form. """
+    x = kit.Ty("x")
+    d = kit.id(kit.Ty())
+    for k in range(n):
+        d = d >> kit.Box("s{}".format(k), kit.Ty(), x) @ kit.id(d.cod)
+    return d >> kit.Box("join", x ** n, x)
+
+
+def long_case(rng, ctx):
+    """
+    Worst cases far from normal form: spirals with 4-6 cups (cubic number of
+    steps) and wide fans (about a thousand steps).  No class enumeration: the
+    trace monitor, soundness and idempotence only.
+    """
+    kit = _KIT
+    if ctx.index % 2:
+        d = spiral(kit, 4 + (ctx.shard + ctx.index) % 3)
+    else:
+        d = fan(kit, [12, 20, 30, 47][(ctx.shard + ctx.index // 2) % 4])
+    connected = wiring.is_connected(d)
+    interp = meval.Interp("long", dims=(2,))
+    for left in (False, True):
+        final = trace(ctx, d, left, connected, interp)
+        reference, _ = normal_form(ctx, d, left, connected)
+        if reference is None:
+            ctx.fail("terminates-within-cap", where="long case: no normal form",
+                     boxes=len(d), left=left, diagram=safe_repr(d, 800))
+            continue
+        ctx.expect("result-sound", final is not None and final == reference,
+                   reason="normal_form() differs from the last normalize() step",
+                   boxes=len(d), left=left)
+        layers, arity = im.model_of(reference)
+        ctx.expect("idempotent", not list(itertools.islice(
+            reference.normalize(left=left), 2)), boxes=len(d), left=left)
+        ok, why = well_typed(reference)
+        ctx.expect("result-sound", ok, reason=why, boxes=len(d), left=left)
+    ctx.count("long_cases")
+    ctx.mark("long" + safe_repr(d, 300) + str(len(d)))
+
+
 def run_case(rng, ctx):
     kit = _KIT
+    if ctx.index % 50 in (24, 49):
+        return long_case(rng, ctx)
     kind = ctx.index % 10
     if kind == 8:
         d = spiral(kit, rng.randint(1, 3)) if rng.random() < .5\
